@@ -391,6 +391,110 @@ def stress(ctx, tree, q):
     ctx.cov["stress_runs"] = n
 
 
+# ------------------------------------------------------------------------------------------------
+# CasOperands.tla: one compare-exchange with non-trivial operand expressions, replayed on the real compiler
+GV = 85
+
+
+def casops_source(w, sg, cases):
+    T = WIDTHS[w][0 if sg else 1]
+    des = dict(plain="21", call5="call5(1, 2, 3, 4, 21)", ext5="ext5(1, 2, 3, 4, 21)", nfetch="atomic_fetch_add(&h, 1) + 16",
+               ncas="(atomic_compare_exchange_strong(&h, &he, 6), 21)", scopy="(s2 = s1, 21)", bitf="(bf.f = 3) + 18")
+    exp = dict(plain="&E.e", call5="(T *)call5(1, 2, 3, 4, (long)&E.e)")
+    obj = dict(plain="&O.x", call5="(_Atomic T *)call5(1, 2, 3, 4, (long)&O.x)")
+    src = ["#include <stdatomic.h>", "int printf(const char *, ...); int fflush(void *); int atoi(const char *);", "typedef %s T;" % T,
+           "struct OB { T g1; _Atomic T x; T g2; }; struct EB { T g1; T e; T g2; }; struct S2 { long a; long b; }; struct BF { int f : 4; int g : 4; };",
+           "static struct OB O; static struct EB E; static _Atomic long h; static long he; static struct S2 s1, s2; static struct BF bf;",
+           "static long call5(long a, long b, long c, long d, long v) { return v; }", "long ext5(long a, long b, long c, long d, long v);",
+           "static void reset(long e0) { O.g1 = %d; O.x = 7; O.g2 = %d; E.g1 = %d; E.e = e0; E.g2 = %d; h = 5; he = 5; s1.a = 33; s1.b = 44; s2.a = 0; s2.b = 0; bf.f = 0; bf.g = 5; }" % (GV, GV, GV, GV),
+           "static void show(int idx, int r) { int ok = O.g1 == %d && O.g2 == %d && E.g1 == %d && E.g2 == %d && bf.g == 5 && s1.a == 33 && s1.b == 44;"
+           " printf(\"%%d %%d %%ld %%ld %%ld %%ld %%d %%d\\n\", idx, r, (long)O.x, (long)E.e, (long)h, s2.a, (int)bf.f, ok); fflush(0); }" % (GV, GV, GV, GV)]
+    for cs in cases:
+        src.append("static void t_%d(void) { int r; reset(%d); r = atomic_compare_exchange_%s(%s, %s, %s); show(%d, r); }"
+                   % (cs["idx"], cs["e0"], cs["strength"], obj[cs["obj"]], exp[cs["exp"]], des[cs["des"]], cs["idx"]))
+    src.append("static void (*tab[])(void) = {%s};" % ", ".join("t_%d" % cs["idx"] for cs in cases))
+    src.append("int main(int argc, char **argv) { for (int i = argc > 1 ? atoi(argv[1]) : 0; i < %d; i++) tab[i](); return 0; }" % len(cases))
+    return "\n".join(src) + "\n"
+
+
+def casops(ctx, tree, q):
+    out = os.path.join(ctx.scratch, "casops.ndjson")
+    stride = 4 if q else 1
+    cfg = ctx.cfg("atomic", "CasOperands.cfg", Seed=ctx.seed % stride, Stride=stride)
+    res = ctx.tlc("atomic", "CasOperands", cfg, env=dict(OUT=out), workers=2, timeout=300)
+    cases = sorted(vt.read_ndjson(out), key=lambda c: c["idx"])
+    if not res.ok or not cases:
+        raise Infra("CasOperands.tla generated nothing: " + res.trace_text()[:300])
+    d = ctx.tmp("c16-casops")
+    ext = os.path.join(d, "ext.o")
+    r = vt.sh(["cc", "-O1", "-c", "-o", ext, os.path.join(vt.VERIF, "harness/c/c16_ext.c")])
+    if r.returncode:
+        raise Infra("c16_ext.c: " + r.stderr[-300:])
+    groups = {}
+    for cs in cases:
+        groups.setdefault((cs["w"], cs["sg"]), []).append(cs)
+
+    def run_exe(exe, cl):
+        """-> {position: tuple or 'died'}; a case that kills the program is recorded and the rest is resumed"""
+        got, start = {}, 0
+        while start < len(cl):
+            p = subprocess.run([exe, str(start)], capture_output=True, text=True, timeout=120)
+            lines = [l.split() for l in p.stdout.splitlines() if len(l.split()) == 8]
+            for f in lines:
+                got[int(f[0])] = tuple(int(x) for x in f[1:])
+            nxt = start + len(lines)
+            if nxt < len(cl):
+                got[cl[nxt]["idx"]] = ("died", p.returncode)
+                nxt += 1
+            start = nxt
+        return got
+
+    def one(item):
+        (w, sg), cl = item
+        f = "%s/casops_%d%s.c" % (d, w, "s" if sg else "u")
+        src = casops_source(w, sg, cl)
+        open(f, "w").write(src)
+        r = vt.sh([tree + "/chibicc", "-I" + tree + "/include", "-c", "-o", f[:-2] + ".o", f], timeout=120)
+        if r.returncode:
+            raise Infra("chibicc failed on %s: %s" % (f, r.stderr[-500:]))
+        r = vt.sh(["cc", "-o", f[:-2] + ".exe", f[:-2] + ".o", ext], timeout=60)
+        if r.returncode:
+            raise Infra("link failed on %s: %s" % (f, r.stderr[-500:]))
+        got = run_exe(f[:-2] + ".exe", cl)
+        want = {cs["idx"]: (cs["want"]["r"], cs["want"]["x"], cs["want"]["e"], cs["want"]["h"], cs["want"]["s2a"], cs["want"]["bff"], 1) for cs in cl}
+        ggot = {}
+        if any(got.get(i) != want[i] for i in want):           # tie-break: what does the reference compiler say?
+            r = vt.sh(["cc", "-w", "-O0", "-o", f[:-2] + ".gcc", f, ext], timeout=120)
+            if r.returncode == 0:
+                ggot = run_exe(f[:-2] + ".gcc", cl)
+        return (w, sg), src, got, want, ggot
+    n = 0
+    for (w, sg), src, got, want, ggot in vt.pmap(one, sorted(groups.items()), workers=8):
+        for cs in groups[(w, sg)]:
+            n += 1
+            i = cs["idx"]
+            ctx.note_case("casops:%d" % i, nontrivial=True)
+            g, wt = got.get(i), want[i]
+            if g == wt:
+                continue
+            if ggot.get(i) != wt:
+                ctx.oracle_disagreements += 1
+                continue
+            if g is None or g[0] == "died":
+                what = "program-died"
+            else:
+                what = ("result-wrong" if g[0] != wt[0] else "object-wrong" if g[1] != wt[1] else "expected-not-updated" if g[2] != wt[2]
+                        else "neighbour-clobbered" if g[6] != 1 else "side-object-wrong")
+            ctx.report("casops:%s:%s:%s:%s:%s" % (cs["des"], cs["exp"], cs["obj"], cs["path"], what),
+                       "atomic_compare_exchange_%s on a %d-byte %s object, desired = %s, expected pointer %s, object address %s, exchange %s: "
+                       "Level A (and gcc) give (result, object, *expected, h, s2.a, bf.f, guards intact) = %s, the tree's chibicc gives %s"
+                       % (cs["strength"], w, "signed" if sg else "unsigned", cs["des"], cs["exp"], cs["obj"], cs["path"], wt, g),
+                       case=dict(kind="casops", case=cs, source=src, expected=wt, observed=g))
+    ctx.cov["traces_validated_against_impl"] += n
+    ctx.cov["casops_cases"] = n
+    ctx.sample(dict(kind="compare-exchange with operand expressions", case=cases[len(cases) // 2]))
+
+
 def run(ctx):
     q = ctx.quick
     tree = ctx.build()
@@ -441,6 +545,9 @@ def run(ctx):
     for c in lcases:
         ctx.note_case(c["name"] + ":live")
     ctx.phase("liveness (%d cases)" % len(lcases))
+    # 4b. one compare-exchange with non-trivial operand expressions (CasOperands.tla), replayed on the compiler
+    casops(ctx, tree, q)
+    ctx.phase("casops")
     # 5. supplement: pthread stress runs, judged on final values only
     stress(ctx, tree, q)
     ctx.phase("stress")
@@ -454,6 +561,9 @@ def replay(ctx, path):
     c = json.load(open(os.path.join(path, "case.json")))
     c = c.get("case") or c
     tree = ctx.build()
+    if c.get("kind") == "casops":
+        casops(ctx, tree, False)
+        return ctx.finish(rule="replay of the CasOperands family")
     if c.get("kind") == "stress":
         stress(ctx, tree, c.get("iters", 100000) <= 100000)
         return ctx.finish(rule="replay of the stress supplement")
